@@ -308,6 +308,18 @@ func cmdEval(prop string, n int, seed uint64, driver, out, corpus string) (*Resu
 			res.Samples = append(res.Samples, map[string]interface{}{"case": describeCase(c), "impl_outcome": goOut[i].String(), "projection": gp})
 		}
 	}
+	// the first disagreements are minimised: the replay then shows what matters
+	for k := range res.Disagreements {
+		if k >= 2 {
+			break
+		}
+		d := &res.Disagreements[k]
+		small, steps := shrinkEval(prop, cases[d.Index], driver, out)
+		if steps > 0 {
+			d.Shrunk = map[string]interface{}{"reduction_steps": steps, "from": sizeOfCase(cases[d.Index]), "to": sizeOfCase(small),
+				"case": describeCase(small), "impl_outcome": runGo(small).String()}
+		}
+	}
 	// kernel sample: a slice of the cases with the answers the extracted model gave
 	writeKernelSample(out, lines, modelLines, 40)
 	res.KernelCases = min(40, len(lines))
